@@ -321,6 +321,15 @@ def _container_guard(ck: Check, prog: Program, f: FuncInfo) -> None:
                     uses.append((n, 'seq', 'iteration over ' + jp))
         if n.kind == 'iter' and dotted(n.ast) == jp:
             uses.append((n, 'seq', 'iteration over ' + jp))
+    # the container checks speak about the value that was received: the parameter must not be rebound to something else
+    # (wrapping a bare object into a list, defaulting a falsy value, ...) before or between them
+    for n in cfg.stmt_nodes():
+        if jp in assigned_names(n):
+            ck.ob('CONTAINER-GUARD', f'{short(f.qualname)}: the JSON argument is not rebound', False)
+            ck.finding('CONTAINER-GUARD', f.qualname, f'JSON argument rebound: {norm(n.ast)[:50]}', f.module.rel, n.line,
+                       f'`{norm(n.ast)[:80]}` replaces the received JSON value inside {short(f.qualname)}: the type checks that follow are made on '
+                       f'the replacement, so a document of the wrong shape (a bare object where an array is required, null, 0, "") is '
+                       f'accepted instead of raising DeserializationError')
     for n, need, text in uses:
         ok = False
         for g in guard_edges(cfg, n):
